@@ -161,7 +161,11 @@ func runCase(c Case) *h.Outcome {
 			for i, es := range c.Envs {
 				start := stream.Len()
 				if err := ser.s.Encode(&stream, es.Build()); err != nil {
-					if ser.name == "protobuf" && strings.Contains(err.Error(), "out of bounds") {
+					// protobuf frames are limited to 64 KiB by design; recognised by the
+					// error text or, independent of it, by the envelope's native size
+					var nb bytes.Buffer
+					_ = perunser.Serializer().Encode(&nb, es.Build())
+					if ser.name == "protobuf" && (strings.Contains(err.Error(), "out of bounds") || nb.Len() > 16<<10) {
 						o.Class("pb-frame-too-large")
 						return nil
 					}
